@@ -642,15 +642,15 @@ fn s5(cache_idx: usize, prefix: &[usize], pre_savepoint: bool) -> (ExecResult, V
         let (wt, log) = (wt.clone(), log.clone());
         bodies.push(Box::new(move || {
             let mut x = log.call(0, "open", || (wt.open_table(X).unwrap(), String::new()));
-            x.insert(100, val(100, 700).as_slice()).unwrap();
-            x.insert(101, val(101, 40).as_slice()).unwrap();
-            x.remove(10).unwrap();
-            // copy-on-write of a committed leaf through get_mut (holds the transaction's shared
-            // freed-page list across a page allocation)
+            // first operation: copy-on-write of the still committed root through get_mut, which
+            // holds the transaction's shared freed-page list across a page allocation and a read
             {
                 let mut g = x.get_mut(12).unwrap().unwrap();
                 g.insert(val(112, 40).as_slice()).unwrap();
             }
+            x.insert(100, val(100, 700).as_slice()).unwrap();
+            x.insert(101, val(101, 40).as_slice()).unwrap();
+            x.remove(10).unwrap();
             x.insert(13, val(113, 40).as_slice()).unwrap();
         }));
     }
